@@ -6,6 +6,13 @@
 #ifndef TLEN
 #define TLEN 1
 #endif
+#ifndef LENS            /* CompID lengths (own sender, own target, inbound sender, inbound target), case-split at compile time:  */
+#define LENS 0x2222     /* a symbolic std::string length makes the string's data pointer symbolic (SSO vs heap) -- AGENT_GUIDE rule 2 */
+#endif
+#define NS ((LENS >> 12) & 15)
+#define NT ((LENS >> 8) & 15)
+#define MNS ((LENS >> 4) & 15)
+#define MNT (LENS & 15)
 uint32_t cx_state, cx_expected, cx_seq, cx_type0, cx_type1, cx_decode_fail, cx_factory_null;
 uint8_t cx_has_pd, cx_pd, cx_has_ost, cx_enforce, cx_silent, cx_reliable, cx_active;
 int64_t cx_st, cx_ost;
@@ -22,10 +29,9 @@ int main(void)
   uint8_t enforce = nondet_bool(), silent = nondet_bool(), reliable = nondet_bool(), active = nondet_bool();
   vf_sess_set_seq(BASE, next_send, expected); vf_sess_set_state(BASE, state); vf_sess_set_active(BASE, active);
   vf_sess_set_flags(BASE, enforce, silent, reliable, 0, 0);
-  uint8_t sid_s[2], sid_t[2], msg_s[2], msg_t[2]; uint32_t ns = nondet_u8(), nt = nondet_u8(), mns = nondet_u8(), mnt = nondet_u8();
+  uint8_t sid_s[2], sid_t[2], msg_s[2], msg_t[2]; const uint32_t ns = NS, nt = NT, mns = MNS, mnt = MNT;
   for (int i = 0; i < 2; i++) { sid_s[i] = nondet_u8(); sid_t[i] = nondet_u8(); msg_s[i] = nondet_u8(); msg_t[i] = nondet_u8(); }
-  VF_ASSUME(ns >= 1 && ns <= 2 && nt >= 1 && nt <= 2 && mns >= 1 && mns <= 2 && mnt >= 1 && mnt <= 2);
-  vf_sess_set_sid(BASE, sid_s, ns, sid_t, nt);
+  vf_sess_set_sid(BASE, sid_s, NS, sid_t, NT);
   /* ---- abstract inbound message */
   uint8_t type[2] = { nondet_u8(), nondet_u8() };
   VF_ASSUME(type[0] >= '0' && type[0] <= 'z' && type[1] >= '0' && type[1] <= 'z');
@@ -37,14 +43,17 @@ int main(void)
 #endif
 #endif
   msg_init(type, TLEN);
-  vf_msg_set_compids(&the_msg, msg_s, mns, msg_t, mnt);
+  vf_msg_set_compids(&the_msg, msg_s, MNS, msg_t, MNT);
   m_is_admin = (TLEN == 1 && type[0] >= '0' && type[0] <= '5');
   m_has_pd = nondet_bool(); m_pd = nondet_bool(); m_has_st = 1; m_has_ost = nondet_bool(); m_st = nondet_i64(); m_ost = nondet_i64();
   VF_ASSUME(m_st >= 0 && m_ost >= 0 && m_st < ((int64_t)1 << 62) && m_ost < ((int64_t)1 << 62));
   m_has_nsn = nondet_bool(); m_nsn = nondet_i32(); VF_ASSUME(m_nsn >= 0 && m_nsn < 10000000);
   m_has_begin = nondet_bool(); m_has_end = nondet_bool(); m_begin = nondet_i32(); m_end = nondet_i32(); VF_ASSUME(m_begin >= 0 && m_begin < 10000000 && m_end >= 0 && m_end < 10000000);
   m_has_trid = nondet_bool(); m_trid_n = 1; m_trid[0] = nondet_u8();
-  m_decode_fail = nondet_u8(); VF_ASSUME(m_decode_fail <= 5); m_factory_null = nondet_bool();
+  m_decode_fail = nondet_u8(); VF_ASSUME(m_decode_fail <= 5);
+#ifdef FACTORY_NULL
+  m_factory_null = 1;
+#endif
   uint8_t d[7]; for (int i = 0; i < 7; i++) { d[i] = nondet_u8(); VF_ASSUME(d[i] >= '0' && d[i] <= '9'); }
   uint32_t seq = digits_value(d);
   uint8_t raw[12]; uint32_t rawn = raw_seq(raw, d);
